@@ -18,6 +18,14 @@ CHECKS = {
     # id: (design_ref, technique, extra level text)
     "C01": ("5/C01", "symbolic execution (symx) of TorrentFile/Hasher/filelist_total vs BEP 3 reference; z3",
             "sizes, listing order and (hasher jobs) the piece length are solver variables"),
+    "C02": ("5/C02", "symbolic execution (symx) of the four v2/hybrid creators and all v2 hashers vs two BEP 52 reference formulations; z3",
+            "file sizes and listing order are solver variables; piece length is a configuration"),
+    "C03": ("5/C03", "symbolic execution (symx) of both hybrid creators; v1 view vs v2 view vs BEP 3 reference of the listed stream; z3",
+            "file sizes and listing order are solver variables"),
+    "C10": ("5/C10", "symbolic execution (symx): pairwise equality of creators' metafiles and of all hashers' outputs on the same symbolic payload; z3",
+            "file sizes and listing order are solver variables"),
+    "C15": ("5/C15", "symbolic execution (symx) of TorrentFile(align=True)/Hasher vs gap arithmetic and BEP 3 reference; z3",
+            "file sizes and listing order are solver variables; modulo by a concrete piece length stays linear"),
 }
 
 NOT_YET = {
